@@ -993,7 +993,7 @@ class World:
         return self.payloads.make(*spec)
 
     def request_response(self, ep, spec, policy=None, probe=False):
-        if self.adapter_api is not None and self.opts.get('adapters'):
+        if self.adapter_api is not None and self.opts.get('adapters') and not self.opts.get('core_client'):
             return self.adapter_api.request_response(ep, spec, policy, probe)
         pid, p = self.payloads.make(*spec)
         self.last_iid = pid
@@ -1023,7 +1023,7 @@ class World:
         return it['future'].cancel()
 
     def fire_and_forget(self, ep, spec, policy=None):
-        if self.adapter_api is not None and self.opts.get('adapters'):
+        if self.adapter_api is not None and self.opts.get('adapters') and not self.opts.get('core_client'):
             return self.adapter_api.fire_and_forget(ep, spec, policy)
         pid, p = self.payloads.make(*spec)
         self.last_iid = pid
@@ -1037,7 +1037,7 @@ class World:
         return pid
 
     def metadata_push(self, ep, mlen, policy=None):
-        if self.adapter_api is not None and self.opts.get('adapters'):
+        if self.adapter_api is not None and self.opts.get('adapters') and not self.opts.get('core_client'):
             return self.adapter_api.metadata_push(ep, mlen, policy)
         pid, p = self.payloads.make(0, mlen)
         self.policy[pid] = policy or {}
@@ -1050,7 +1050,7 @@ class World:
         return pid
 
     def request_stream(self, ep, spec, n0=None, policy=None, subscribe=True, sub_raise_in=None):
-        if self.adapter_api is not None and self.opts.get('adapters'):
+        if self.adapter_api is not None and self.opts.get('adapters') and not self.opts.get('core_client'):
             return self.adapter_api.request_stream(ep, spec, n0, policy, subscribe)
         pid, p = self.payloads.make(*spec)
         self.last_iid = pid
@@ -1072,7 +1072,7 @@ class World:
         return pid
 
     def request_channel(self, ep, spec, n0=None, policy=None, pub=True, pub_policy=None, subscribe=True):
-        if self.adapter_api is not None and self.opts.get('adapters'):
+        if self.adapter_api is not None and self.opts.get('adapters') and not self.opts.get('core_client'):
             return self.adapter_api.request_channel(ep, spec, n0, policy, pub, pub_policy, subscribe)
         pid, p = self.payloads.make(*spec)
         self.last_iid = pid
@@ -1099,7 +1099,7 @@ class World:
         return pid
 
     def subscribe(self, iid):
-        if self.adapter_api is not None and self.opts.get('adapters'):
+        if self.adapter_api is not None and self.opts.get('adapters') and not self.opts.get('core_client'):
             return self.adapter_api.subscribe(iid)
         it = self.interaction(iid)
         self.rec.log(it['init'], 'app_subscribe', iid=iid)
